@@ -80,7 +80,7 @@ package server
 //@ pure unbound(s *Stmt) bool = len(s.args) == s.paramCount && forall(i, 0, len(s.args), s.args[i] == nil)
 
 //@ property C16: (*Stmt).ResetParams, (*SessionExecutor).handleStmtExecute, (*SessionExecutor).handleStmtReset, (*SessionExecutor).handleStmtSendLongData,
-//@   (*Stmt).SetParamTypes, (*Stmt).GetParamTypes, (*SessionExecutor).bindStmtArgs, (*SessionExecutor).handleStmtClose, (*SessionExecutor).handleStmtPrepare, (*Namespace).GetName
+//@   (*Stmt).SetParamTypes, (*Stmt).GetParamTypes, (*SessionExecutor).bindStmtArgs, (*SessionExecutor).handleStmtClose, (*SessionExecutor).handleStmtPrepare
 
 //@ func (*Stmt).ResetParams
 //@   requires s != nil && 0 <= s.paramCount
@@ -133,10 +133,9 @@ package server
 //@   params s, cutset
 //@   pure-call
 //@   ensures slen(ret0) <= slen(s)
-//@ func (*Namespace).GetName
-//@   requires n != nil
-//@   assigns \nothing
-//@   ensures ret0 == n.name
+//@ trusted (*github.com/XiaoMi/Gaea/proxy/server.Namespace).GetName
+//@   params n
+//@   pure-call
 //@ func (*SessionExecutor).handleStmtPrepare
 //@   requires se != nil && se.stmts != nil && slen(sql) < 1<<30 && se.contextNamespace != nil && se.stmtID < 4294967295
 //@   assigns se.stmtID, mapof(se.stmts)
